@@ -89,9 +89,10 @@ func vScenarioC14(rc *runCtx) {
 	x := newXferWorld(rc, o)
 	armed := vArmAfterCfg(x)
 	fired := false
+	var endHook *bool
 	switch ending {
 	case "user-stop":
-		vOnChunk(rc, x, armed, 150, func() {
+		endHook = vOnChunk(rc, x, armed, 150, func() {
 			fired = true
 			x.paused = true
 			w.Go("user", x.client, func() {
@@ -101,7 +102,7 @@ func vScenarioC14(rc *runCtx) {
 			})
 		})
 	case "sigint":
-		vOnChunk(rc, x, armed, 150, func() {
+		endHook = vOnChunk(rc, x, armed, 150, func() {
 			fired = true
 			w.Go("signal", nil, func() { x.server.Signal(os.Interrupt) })
 		})
@@ -269,6 +270,9 @@ func vScenarioC14(rc *runCtx) {
 	o2.srcPaths = spec.paths
 	o2.dstDir = dst2
 	x.settle(10 * time.Second) // let the first OneTimeUpload watchdog expire
+	if endHook != nil {
+		*endHook = true // an ending that never came during the first transfer does not come during the second
+	}
 	before2 := vSnapshot(dst2)
 	x.nextTransfer(o2)
 	w.Run(x.finished)
